@@ -217,6 +217,14 @@ func c12Run(c *core.Ctx, i int) {
 	}
 	// random histories with aliases
 	r := c.Rng
+	switch i % 10 {
+	case 1: // a map grown to many keys and shrunk again
+		runTextFamily(c, "bulk-map", bulkMapSource(r), nil)
+		return
+	case 6: // maps copied by the repetition operator
+		runTextFamily(c, "repeated-maps", repeatedMapSource(r), nil)
+		return
+	}
 	switch r.Intn(3) {
 	case 0:
 		h.stmts = append(h.stmts, gen.Decl{Name: "m", T: tMapN, Init: lit})
